@@ -614,8 +614,8 @@ Section InterpReplay.
   Qed.
 
   (* ---- T.cleanup ---- *)
-  Lemma replays_cleanup_loop : forall fuel fuel' last, fuel <= fuel' ->
-    replays2 (cleanup_loop crun fuel last) (cleanup_loop crun fuel' last).
+  Lemma replays_cleanup_loop inner : forall fuel fuel' last, fuel <= fuel' ->
+    replays2 (cleanup_loop crun inner fuel last) (cleanup_loop crun inner fuel' last).
   Proof.
     induction fuel as [|f IH]; intros fuel' last Hf s; [intros Hg; cbn in Hg; contradiction|].
     destruct fuel' as [|f']; [lia|]. cbn [cleanup_loop].
@@ -624,9 +624,11 @@ Section InterpReplay.
     set (h := fun k (r : result val) =>
       match r with
       | Err XFuel => throw XFuel
-      | Err (XInvalid m) => _ <- (if internal_msg m then mark_dirty else ret tt) ;; _ <- note_skip m ;; cleanup_loop crun k last
-      | Err e => cleanup_loop crun k (Some e)
-      | Ok _ => cleanup_loop crun k last
+      | Err (XInvalid m) =>
+          if inner && internal_msg m then _ <- mark_dirty ;; cleanup_loop crun inner k (Some (XInvalid m))
+          else _ <- (if internal_msg m then mark_dirty else ret tt) ;; _ <- note_skip m ;; cleanup_loop crun inner k last
+      | Err e => cleanup_loop crun inner k (Some e)
+      | Ok _ => cleanup_loop crun inner k last
       end).
     change (rep_at (try_ (crun c) (h f)) (try_ (crun c) (h f')) (post (pop_cleanup s))).
     set (s2 := post (pop_cleanup s)).
@@ -643,40 +645,105 @@ Section InterpReplay.
       assert (Hh : replays2 (h f (res (crun c s2))) (h f' (res (crun c s2)))).
       { unfold h. destruct (res (crun c s2)) as [v|e]; [apply IH; lia|].
         destruct e; try (apply IH; lia).
-        - apply replays_bind; [destruct (internal_msg m); [apply replays_mark_dirty|apply replays_ret]|intros _].
-          apply replays_bind; [apply replays_note_skip|intros; apply IH; lia].
+        - destruct (inner && internal_msg m).
+          + apply replays_bind; [apply replays_mark_dirty|intros _; apply IH; lia].
+          + apply replays_bind; [destruct (internal_msg m); [apply replays_mark_dirty|apply replays_ret]|intros _].
+            apply replays_bind; [apply replays_note_skip|intros; apply IH; lia].
         - apply replays_throw. }
       destruct (Hh (post (crun c s2)) Hg Hd2 cc) as [S1 S2 S3 S4 S5 S6 S7 S8].
       constructor; cbn [res post w rd rpd pv nd dirty wapp]; try assumption; try congruence; try lia.
       rewrite R8, S8. reflexivity.
     - exfalso. destruct (not_good_cases _ _ NG) as [E|[m [E Hi]]]; rewrite E in *; unfold h in Hg, Hd2.
       + cbn in Hg. contradiction.
-      + rewrite Hi in Hd2. unfold bind at 1 in Hd2. cbn [mark_dirty res post w] in Hd2. cbn in Hd2. discriminate.
+      + rewrite Hi in Hd2. destruct inner; cbn [andb] in Hd2;
+          unfold bind at 1 in Hd2; cbn [mark_dirty res post w] in Hd2; cbn in Hd2; discriminate.
   Qed.
 
-  Lemma replays_cleanup : replays (cleanup LF crun).
+  Lemma replays_cleanup inner : replays (cleanup LF crun inner).
   Proof.
     unfold cleanup. apply replays_bind; [apply replays_begin_cleanup|intros _].
     apply replays_bind; [apply replays_cleanup_loop; lia|intros r].
     apply replays_bind; [apply replays_end_cleanup|intros _]. apply replays_ret.
   Qed.
 
-  Lemma cleanup_loop_err : forall fuel last s e, res (cleanup_loop crun fuel last s) = Err e -> e = XFuel.
+  Lemma cleanup_loop_err inner : forall fuel last s e, res (cleanup_loop crun inner fuel last s) = Err e -> e = XFuel.
   Proof.
     induction fuel as [|f IH]; intros last s e; cbn [cleanup_loop]; [cbn; congruence|].
     unfold bind at 1. unfold pop_cleanup at 1 2 3. destruct (cleanups (ts s)) as [|[id c] rest]; [|destruct (cleaning (ts s))]; cbn [res post]; [cbn; discriminate| |cbn; discriminate].
     unfold try_. cbn [res]. destruct (res (crun c _)) as [v|e0]; [apply IH|].
     destruct e0; try apply IH.
-    - unfold bind at 1. destruct (internal_msg m); cbn [mark_dirty ret res post]; unfold bind at 1; cbn [note_skip res post]; apply IH.
+    - destruct (inner && internal_msg m).
+      + unfold bind at 1. cbn [mark_dirty res post]. apply IH.
+      + unfold bind at 1. destruct (internal_msg m); cbn [mark_dirty ret res post]; unfold bind at 1; cbn [note_skip res post]; apply IH.
     - cbn; congruence.
   Qed.
-  Lemma cleanup_err s e : res (cleanup LF crun s) = Err e -> e = XFuel.
+  Lemma cleanup_err inner s e : res (cleanup LF crun inner s) = Err e -> e = XFuel.
   Proof.
     unfold cleanup. unfold bind at 1. cbn [begin_cleanup res post].
     unfold bind at 1.
-    match goal with |- context [res (cleanup_loop crun LF None ?s0)] => destruct (res (cleanup_loop crun LF None s0)) eqn:E end.
+    match goal with |- context [res (cleanup_loop crun inner LF None ?s0)] => destruct (res (cleanup_loop crun inner LF None s0)) eqn:E end.
     - unfold bind at 1. cbn. discriminate.
     - cbn [res]. intros H. injection H as <-. eapply cleanup_loop_err; eauto.
+  Qed.
+
+  (* T.cleanup reports an invalid-data exception only for the inner T of a Custom generator function, only when a
+     generator ran out of data inside a cleanup function, and such a run is flagged *)
+  Lemma dirty_wapp_r a b : dirty b = true -> dirty (wapp a b) = true.
+  Proof. intros H. unfold wapp; cbn [dirty]. rewrite H. apply orb_true_r. Qed.
+  Lemma dirty_wapp_r_l a b : dirty a = true -> dirty (wapp a b) = true.
+  Proof. intros H. unfold wapp; cbn [dirty]. rewrite H. reflexivity. Qed.
+  Lemma bind_ok_out A B (m : M A) (f : A -> M B) s a :
+    res (m s) = Ok a ->
+    bind m f s = mkOut (res (f a (post (m s)))) (post (f a (post (m s)))) (wapp (w (m s)) (w (f a (post (m s))))).
+  Proof. intros H. unfold bind. rewrite H. reflexivity. Qed.
+  Lemma cleanup_loop_invalid inner : forall fuel last s m,
+    res (cleanup_loop crun inner fuel last s) = Ok (Some (XInvalid m)) ->
+    last = Some (XInvalid m) \/
+    (inner = true /\ internal_msg m = true /\ dirty (w (cleanup_loop crun inner fuel last s)) = true).
+  Proof.
+    induction fuel as [|f IH]; intros last s m; cbn [cleanup_loop]; [cbn; discriminate|].
+    assert (Hpop : exists oc, res (pop_cleanup s) = Ok oc).
+    { unfold pop_cleanup. destruct (cleanups (ts s)) as [|[id c] rest]; [|destruct (cleaning (ts s))]; eexists; reflexivity. }
+    destruct Hpop as [oc Hpop]. rewrite (bind_ok_out _ _ pop_cleanup _ s oc Hpop). cbn [res w].
+    destruct oc as [c|]; [|cbn [ret res]; intros H; injection H as H; left; exact H].
+    unfold try_. cbn [res w]. set (s1 := post (pop_cleanup s)).
+    destruct (res (crun c s1)) as [v|[m0|m0 st0|m0 st0|]].
+    - intros H. destruct (IH _ _ _ H) as [E|(E1 & E2 & E3)]; [left; exact E|right].
+      split; [exact E1|split; [exact E2|]]. apply dirty_wapp_r, dirty_wapp_r. exact E3.
+    - destruct (inner && internal_msg m0) eqn:Eb.
+      + apply andb_true_iff in Eb. destruct Eb as [-> Ei].
+        rewrite (bind_ok_out _ _ mark_dirty _ _ tt eq_refl). cbn [res w]. intros H. right. split; [reflexivity|]. split.
+        { destruct (IH _ _ _ H) as [E|(_ & E2 & _)]; [injection E as <-; exact Ei|exact E2]. }
+        apply dirty_wapp_r, dirty_wapp_r. reflexivity.
+      + assert (Hn : forall s2,
+                  res ((_ <- (if internal_msg m0 then mark_dirty else ret tt) ;; _ <- note_skip m0 ;; cleanup_loop crun inner f last) s2)
+                  = res (cleanup_loop crun inner f last (post (note_skip m0 s2))) /\
+                  (dirty (w (cleanup_loop crun inner f last (post (note_skip m0 s2)))) = true ->
+                   dirty (w ((_ <- (if internal_msg m0 then mark_dirty else ret tt) ;; _ <- note_skip m0 ;; cleanup_loop crun inner f last) s2)) = true)).
+        { intros s2. destruct (internal_msg m0); unfold bind; cbn [mark_dirty ret note_skip res post w]; (split; [reflexivity|]);
+            intros Hd; repeat apply dirty_wapp_r; exact Hd. }
+        destruct (Hn (post (crun c s1))) as [N1 N2]. rewrite N1. intros H.
+        destruct (IH _ _ _ H) as [E|(E1 & E2 & E3)]; [left; exact E|right].
+        split; [exact E1|split; [exact E2|]]. apply dirty_wapp_r, dirty_wapp_r, N2. exact E3.
+    - intros H. destruct (IH _ _ _ H) as [E|(E1 & E2 & E3)]; [discriminate|right].
+      split; [exact E1|split; [exact E2|]]. apply dirty_wapp_r, dirty_wapp_r. exact E3.
+    - intros H. destruct (IH _ _ _ H) as [E|(E1 & E2 & E3)]; [discriminate|right].
+      split; [exact E1|split; [exact E2|]]. apply dirty_wapp_r, dirty_wapp_r. exact E3.
+    - cbn. discriminate.
+  Qed.
+  Lemma cleanup_invalid inner s m :
+    res (cleanup LF crun inner s) = Ok (Some (XInvalid m)) ->
+    inner = true /\ internal_msg m = true /\ dirty (w (cleanup LF crun inner s)) = true.
+  Proof.
+    unfold cleanup. rewrite (bind_ok_out _ _ begin_cleanup _ s tt eq_refl). cbn [res w].
+    set (s0 := post (begin_cleanup s)).
+    pose proof (cleanup_loop_invalid inner LF None s0 m) as L.
+    destruct (res (cleanup_loop crun inner LF None s0)) as [r|e0] eqn:El.
+    - rewrite (bind_ok_out _ _ (cleanup_loop crun inner LF None) _ s0 r El). cbn [res w].
+      unfold bind. cbn [end_cleanup ret res post w]. intros H. injection H as ->.
+      destruct (L eq_refl) as [E|(E1 & E2 & E3)]; [discriminate|].
+      split; [exact E1|split; [exact E2|]]. apply dirty_wapp_r. unfold wapp at 1. cbn [dirty]. rewrite E3. reflexivity.
+    - unfold bind. rewrite El. cbn. discriminate.
   Qed.
 
   (* ---- Custom ---- *)
@@ -693,9 +760,10 @@ Section InterpReplay.
   Proof.
     unfold custom_handler.
     assert (H : replays (
-                 c <- cleanup LF crun ;;
+                 c <- cleanup LF crun true ;;
                  t0 <- get_ts ;;
                  match c, r with
+                 | Some (XInvalid m), _ => match failed t0 with Some _ => throw (XInvalid m) | None => ret None end
                  | Some e, Err (XInvalid m) => _ <- (if internal_msg m then mark_dirty else ret tt) ;; throw e
                  | Some e, _ => throw e
                  | None, Ok v => ret (Some v)
@@ -704,10 +772,9 @@ Section InterpReplay.
                  end)).
     { apply replays_bind; [apply replays_cleanup|intros c].
       apply replays_bind; [apply replays_get_ts|intros t0].
-      destruct c as [e|]; destruct r as [v|e']; try apply replays_throw; try apply replays_ret.
-      - destruct e'; try apply replays_throw.
-        apply replays_bind; [destruct (internal_msg m); [apply replays_mark_dirty|apply replays_ret]|intros; apply replays_throw].
-      - destruct e'; try apply replays_throw. destruct (failed t0); [apply replays_throw|apply replays_ret]. }
+      destruct c as [[]|]; destruct r as [v|[]]; try apply replays_throw; try apply replays_ret;
+        try (destruct (failed t0); [apply replays_throw|apply replays_ret]);
+        (apply replays_bind; [destruct (internal_msg _); [apply replays_mark_dirty|apply replays_ret]|intros; apply replays_throw]). }
     destruct r as [v|[]]; try exact H. apply replays_throw.
   Qed.
 
@@ -729,12 +796,18 @@ Section InterpReplay.
     intros NG Hg Hc. destruct (not_good_cases _ _ NG) as [E|[m [E Hi]]]; rewrite E in *.
     - cbn in Hg. contradiction.
     - unfold custom_handler in *. unfold bind at 1. unfold bind at 1 in Hg. unfold bind at 1 in Hc.
-      match goal with |- context [cleanup LF crun ?s0] => set (s1 := s0) in * end.
-      destruct (res (cleanup LF crun s1)) as [[e|]|e] eqn:Ec.
-      + unfold bind at 1. cbn [get_ts res post w]. rewrite Hi. unfold bind at 1. cbn. rewrite !orb_true_r. reflexivity.
+      match goal with |- context [cleanup LF crun true ?s0] => set (s1 := s0) in * end.
+      destruct (res (cleanup LF crun true s1)) as [[e|]|e] eqn:Ec.
+      + assert (Hd : forall m', e = XInvalid m' -> dirty (w (cleanup LF crun true s1)) = true).
+        { intros m' ->. exact (proj2 (proj2 (cleanup_invalid true s1 m' Ec))). }
+        destruct e as [m'|m' st'|m' st'|].
+        * cbn [w]. apply dirty_wapp_r_l. exact (Hd m' eq_refl).
+        * unfold bind at 1. cbn [get_ts res post w]. rewrite Hi. unfold bind at 1. cbn. rewrite !orb_true_r. reflexivity.
+        * unfold bind at 1. cbn [get_ts res post w]. rewrite Hi. unfold bind at 1. cbn. rewrite !orb_true_r. reflexivity.
+        * unfold bind at 1. cbn [get_ts res post w]. rewrite Hi. unfold bind at 1. cbn. rewrite !orb_true_r. reflexivity.
       + (* a skip raised by rapid itself that is not swallowed stays an internal invalid: not good *)
         unfold bind at 1 in Hg. unfold bind at 1 in Hc. cbn [get_ts res post w] in Hg, Hc.
-        destruct (failed (ts (post (cleanup LF crun s1)))); cbn in Hg, Hc; [congruence|congruence].
+        destruct (failed (ts (post (cleanup LF crun true s1)))); cbn in Hg, Hc; [congruence|congruence].
       + apply cleanup_err in Ec. subst e. cbn in Hg. contradiction.
   Qed.
 
